@@ -916,18 +916,26 @@ class AbstractPriorModel(AbstractModel):
         """
 
         prior_tuples = self.prior_tuples_ordered_by_id
-        prior_class_dict = self.prior_class_dict
         arguments = {}
 
         for prior_tuple, mean in zip(prior_tuples, means):
             prior = prior_tuple.prior
-            cls = prior_class_dict[prior]
 
-            name = prior_tuple.name
+            # The class and the name under which widths and limits are configured
+            # describe one and the same place of the prior (a shared prior has several):
+            # the attribute name at the end of its path and the object holding it there
+            path = self.path_for_prior(prior)
+            name = path[-1]
+            holder = self.object_for_path(path[:-1])
+            if isinstance(holder, TuplePrior):
+                holder = self.object_for_path(path[:-2])
+            if hasattr(holder, "cls"):
+                cls = holder.cls
+            else:
+                cls = holder.prior_class_dict[prior]
             # Use the name of the collection for configuration when a prior's name
             # is just a number (i.e. its position in a collection)
             if name.isdigit():
-                path = self.path_for_prior(prior_tuple.prior)
                 if len(path) > 1:
                     name = path[-2]
 
